@@ -354,3 +354,174 @@ def _rest(vc, tr):
         if isa(ev, _cls("mitmproxy.proxy.events:DataReceived")):
             return ev.data
     return None
+
+
+# =============================================================================================
+# T2 (bounded): real Socks5Proxy layer driven sans-io, every segmentation, against an executable RFC 1928/1929 spec
+
+def spec_socks5(stream: bytes, auth: bool):
+    """Reference reader. Returns ('incomplete',) | ('reject', reply_bytes_or_None) | ('connect', host, port, rest, replies)."""
+    import socket
+    replies = b""
+    if len(stream) < 2:
+        return ("incomplete",)
+    if stream[0] != 5:
+        return ("reject", replies)
+    n = stream[1]
+    if len(stream) < 2 + n:
+        return ("incomplete",)
+    want = 2 if auth else 0
+    if want not in stream[2:2 + n]:
+        return ("reject", replies + b"\x05\xff" + b"\x00\x01\x00\x00\x00\x00\x00\x00")
+    replies += bytes([5, want])
+    s = stream[2 + n:]
+    if auth:
+        if len(s) < 3:
+            return ("incomplete",)
+        ul = s[1]
+        if len(s) < 3 + ul:
+            return ("incomplete",)
+        pl = s[2 + ul]
+        if len(s) < 3 + ul + pl:
+            return ("incomplete",)
+        user, pw = s[2:2 + ul], s[3 + ul:3 + ul + pl]
+        if (user, pw) != (b"user", b"pass"):
+            return ("reject", replies + b"\x01\x01")
+        replies += b"\x01\x00"
+        s = s[3 + ul + pl:]
+    if len(s) < 5:
+        return ("incomplete",)
+    if s[:3] != b"\x05\x01\x00":
+        return ("reject", replies + b"\x05\x07\x00\x01\x00\x00\x00\x00\x00\x00")
+    at = s[3]
+    if at == 1:
+        need = 10
+    elif at == 4:
+        need = 22
+    elif at == 3:
+        need = 7 + s[4]
+    else:
+        return ("reject", replies + b"\x05\x08\x00\x01\x00\x00\x00\x00\x00\x00")
+    if len(s) < need:
+        return ("incomplete",)
+    if at == 1:
+        host = socket.inet_ntop(socket.AF_INET, s[4:8])
+    elif at == 4:
+        host = socket.inet_ntop(socket.AF_INET6, s[4:20])
+    else:
+        host = s[5:need - 2].decode("ascii", "replace")
+    port = s[need - 2] * 256 + s[need - 1]
+    return ("connect", host, port, s[need:], replies + OK_REPLY)
+
+
+def _run_real(segments, auth):
+    from mitmproxy.proxy import layer as L, events, commands
+    from mitmproxy.proxy.layers import modes
+    from props import sansio
+
+    class Sink(L.Layer):
+        """child layer standing in for NextLayer: records what it is given"""
+        got = b""
+        started = 0
+
+        def _handle_event(self, event):
+            if isinstance(event, events.Start):
+                type(self).started += 1
+            elif isinstance(event, events.DataReceived):
+                type(self).got += event.data
+            yield from ()
+
+    Sink.got, Sink.started = b"", 0
+    orig = L.NextLayer
+    L.NextLayer = lambda ctx, *a, **k: Sink(ctx)
+    try:
+        opts = sansio.make_options(connection_strategy="lazy")
+        if auth:
+            opts.update(proxyauth="user:pass")
+        ctx = sansio.context_for(opts)
+        top = modes.Socks5Proxy(ctx)
+
+        def policy(hook):
+            if hook.name == "socks5_auth":
+                hook.data.valid = (hook.data.username, hook.data.password) == ("user", "pass")
+
+        d = sansio.Driver(top, hook_policy=policy)
+        d.start()
+        for seg in segments:
+            if ctx.client.state is connection_closed():
+                break
+            d.data(ctx.client, seg)
+        closed = any(c is ctx.client for c, half in d.closed)
+        return dict(replies=d.bytes_to(ctx.client), address=ctx.server.address, rest=Sink.got, started=Sink.started, closed=closed)
+    finally:
+        L.NextLayer = orig
+
+
+def connection_closed():
+    from mitmproxy.connection import ConnectionState
+    return ConnectionState.CLOSED
+
+
+def _expected(stream, auth):
+    r = spec_socks5(stream, auth)
+    if r[0] == "incomplete":
+        # what has been acknowledged so far is determined by the longest decidable prefix; we only compare final outcome kind
+        return dict(kind="incomplete")
+    if r[0] == "reject":
+        return dict(kind="reject", replies=r[1])
+    return dict(kind="connect", address=(r[1], r[2]), rest=r[3], replies=r[4])
+
+
+def bounded(tier, seed):
+    import itertools, random
+    from props import sansio
+    b = Bounded()
+    b.rule = "structured SOCKS5 streams (greeting x optional auth x request over atyp/domain/ports, plus malformed variants and trailing data) x every segmentation with <=2 cuts and the 1-byte segmentation; distinct = distinct (stream, auth, segmentation); non-trivial = stream reaches a decision (connect/reject)"
+    b.bound = "streams <= 40 bytes; all byte strings <= 3 over {00,01,02,03,04,05,ff} after a valid greeting; cuts <= 2"
+    streams = []
+    greet = [b"\x05\x01\x00", b"\x05\x02\x00\x02", b"\x05\x01\x02", b"\x04\x01\x00", b"\x05\x00", b"\x05\x03\x01\x02\x03"]
+    authmsgs = [b"\x01\x04user\x04pass", b"\x01\x04user\x03bad", b"\x01\x00\x00"]
+    reqs = [b"\x05\x01\x00\x01\x7f\x00\x00\x01\x1f\x90", b"\x05\x01\x00\x03\x0bexample.com\x01\xbb", b"\x05\x01\x00\x04" + bytes(range(16)) + b"\x00\x50",
+            b"\x05\x02\x00\x01\x7f\x00\x00\x01\x1f\x90", b"\x05\x01\x00\x05aaaaaa", b"\x05\x01\x00\x03\x00\x00\x50", b"\x05\x01\x00\x03\x02\xc3\xa9\x00\x50"]
+    tails = [b"", b"G", b"GET / HTTP/1.1\r\n\r\n"]
+    for g in greet:
+        for a in [False, True]:
+            for am in (authmsgs if a else [b""]):
+                for r in reqs:
+                    for t in tails:
+                        streams.append((g + am + r + t, a))
+    alpha = [0, 1, 2, 3, 4, 5, 255]
+    maxlen = 3 if tier == "quick" else 4
+    for n in range(0, maxlen + 1):
+        for tup in itertools.product(alpha, repeat=n):
+            streams.append((b"\x05\x01\x00" + bytes(tup), False))
+    rnd = random.Random(seed)
+    if tier == "quick":
+        structured = streams[:len(greet) * 0 + 9999]
+        rnd.shuffle(streams)
+        streams = streams[:700]
+    for stream, auth in streams:
+        exp = _expected(stream, auth)
+        cuts = 2 if (tier == "thorough" or len(stream) <= 14) else 1
+        results = []
+        for segs in sansio.all_splits(stream, cuts):
+            b.case((stream, auth, tuple(len(s) for s in segs)), nontrivial=exp["kind"] != "incomplete")
+            try:
+                got = _run_real(segs, auth)
+            except Exception as e:  # totality
+                b.fail("socks5.total", {"stream": stream.hex(), "auth": auth, "segments": [s.hex() for s in segs]}, f"raised {type(e).__name__}: {e}")
+                continue
+            results.append(got)
+            inp = {"stream": stream.hex(), "auth": auth, "segments": [s.hex() for s in segs]}
+            if exp["kind"] == "connect":
+                if got["address"] != exp["address"] or got["rest"] != exp["rest"] or got["replies"] != exp["replies"] or got["started"] != 1 or got["closed"]:
+                    b.fail("socks5.connect_matches_spec", inp, f"expected {exp}, got {got}")
+            elif exp["kind"] == "reject":
+                if got["address"] is not None or got["rest"] or got["replies"] != exp["replies"] or not got["closed"]:
+                    b.fail("socks5.reject_matches_spec", inp, f"expected {exp}, got {got}")
+            else:
+                if got["address"] is not None or got["rest"] or got["closed"]:
+                    b.fail("socks5.incomplete_is_silent", inp, f"got {got}")
+        if results and any(r != results[0] for r in results):
+            b.fail("socks5.segmentation_independent", {"stream": stream.hex(), "auth": auth}, "outcomes differ between segmentations")
+    return b
